@@ -209,7 +209,7 @@ def check_ctors(run, F):
         if 'From<std::option::Option<' not in ref:
             continue
         n += 1
-        t = N.tbl(fn)
+        t = N.tblx(fn)
         p = [b['name'] for q in fn.params for b in _pat_binds(q)][0]
         rows = [(cs, l) for cs, l, ef in t if '!VALID(%s)' % p in cs]
         ok = bool(rows) and all(l.endswith('nat()') for cs, l in rows)
@@ -460,7 +460,8 @@ def check_cr_table(run, F):
             name = strip_generics(c['callee']).split('::')[-1]
             dt_local = fn.params[0].get('local') if fn.params and fn.params[0].get('k') == 'Binding' else None
             bad = None
-            for t in E.tick_grid(unit):
+            dense = getattr(run, 'tier', 'quick') == 'thorough'
+            for t in E.tick_grid(unit, dense):
                 try:
                     env = {dt_local: ('DT', t)}
                     for st in fn.hir.get('stmts', []):
@@ -489,7 +490,7 @@ def check_cr_table(run, F):
                     break
             run.ob('TBL.cr', fn, key, bad is None, loc(c),
                    bad or '%s%s denotes the same instant on %d grid points' % (
-                       name, tuple(src(a) for a in c['ch'][1:]), len(E.tick_grid(unit))))
+                       name, tuple(src(a) for a in c['ch'][1:]), len(E.tick_grid(unit, getattr(run, 'tier', 'quick') == 'thorough'))))
         elif fn.name == 'from' and 'From<chrono::DateTime<chrono::Utc>>' in tref and \
                 'datetime::DateTime' in (fn.impl_self or ''):
             unit = _unit_of(fn.impl_self)
@@ -497,7 +498,11 @@ def check_cr_table(run, F):
             key = 'chrono -> DateTime<%s>' % unit
             dt_local = fn.params[0].get('local') if fn.params and fn.params[0].get('k') == 'Binding' else None
             bad = None
-            for s_, ns in E.CR_GRID:
+            grid = list(E.CR_GRID)
+            if getattr(run, 'tier', 'quick') == 'thorough':
+                grid += [(s0 + d, ns0) for s0 in (-2, 0, 1, -777_600_000, 1_700_000_000, -9_223_372_036, 9_223_372_035)
+                         for d in (-1, 0, 1) for ns0 in (0, 1, 999, 1_000, 999_999, 1_000_000, 500_000_000, 999_999_999)]
+            for s_, ns in grid:
                 want = E.expected_from_cr(unit, s_, ns)
                 if unit != 'Nanosecond' and not (-8_000_000_000 < s_ < 8_000_000_000):
                     continue        # far outside what the other units are asked about
